@@ -20,13 +20,6 @@ namespace FuModel.Find.Walk
 
 variable {α σ : Type}
 
-structure RefCfg where
-  depthFirst : Bool
-  minDepth : Nat
-  maxDepth : Nat
-  follow : Follow
-  deriving Repr
-
 def RefCfg.follows (c : RefCfg) (depth : Nat) : Bool :=
   match c.follow with
   | .never => false
@@ -37,8 +30,6 @@ structure Acc (σ : Type) where
   st : σ
   ret : Nat
   diags : Nat
-
-def inRange (c : RefCfg) (d : Nat) : Bool := decide (c.minDepth ≤ d) && decide (d ≤ c.maxDepth)
 
 /-- the entry view find evaluates: which status record the follow mode selects -/
 def mkVisit (c : RefCfg) (rpath : List Name) (depth : Nat) (n : Node α) : Visit α :=
